@@ -1165,7 +1165,7 @@ fn main() {
     let by_id: BTreeMap<u64, &Value> = obs["seqs"].as_array().unwrap().iter().map(|x| (x["id"].as_u64().unwrap(), x)).collect();
 
     // ---- oracles + shards ----
-    let nshards = 12usize;
+    let nshards = 8usize;
     let mut shard_cases: Vec<Vec<String>> = vec![Vec::new(); nshards];
     let mut lru_shards: Vec<String> = Vec::new();
     let mut readback_cases: Vec<String> = Vec::new();
@@ -1391,18 +1391,18 @@ fn main() {
             write_shard(&args, k, &text);
             k += 1;
         }
-        for case in &lru_shards {
-            let text = format!("{}Definition cases : list c30_case := [\n{}\n].\nEval vm_compute in (c30_mismatches {} {} cases).\n", header, case, coq_variant, cap);
+        for pair in lru_shards.chunks(2) {
+            let text = format!("{}Definition cases : list c30_case := [\n{}\n].\nEval vm_compute in (c30_mismatches {} {} cases).\n", header, pair.join(";\n"), coq_variant, cap);
             write_shard(&args, k, &text);
             k += 1;
         }
-        for chunk in readback_cases.chunks(300) {
+        for chunk in readback_cases.chunks(700) {
             let text = format!("{}Definition cases : list (Z * pyval * option rval) := [\n{}\n].\nEval vm_compute in (c30_readback_mismatches {} cases).\n", header, chunk.join(";\n"), variant.reject);
             write_shard(&args, k, &text);
             k += 1;
             sum.model_cases += chunk.len() as u64;
         }
-        for chunk in spec_cases.chunks(900) {
+        for chunk in spec_cases.chunks(1400) {
             let text = format!("{}Definition cases : list (Z * text * list pyval * option text) := [\n{}\n].\nEval vm_compute in (c30_spec_mismatches cases).\n", header, chunk.join(";\n"));
             write_shard(&args, k, &text);
             k += 1;
